@@ -467,6 +467,19 @@ void _mi_page_retire(mi_page_t* page) mi_attr_noexcept {
 
   mi_page_set_has_aligned(page, false);
 
+  // a page without a heap was abandoned by `mi_heap_delete` (of a heap that cannot be absorbed by the
+  // backing heap, e.g. one bound to an arena) while its segment stayed with this thread because it also
+  // holds pages of other heaps: there is no page queue to retire it in, free the page directly.
+  if mi_unlikely(mi_page_heap(page) == NULL) {
+    mi_segment_t* const segment = _mi_page_segment(page);
+    mi_segments_tld_t* const tld = &mi_heap_get_default()->tld->segments;
+    mi_assert_internal(segment->abandoned > 0);
+    segment->abandoned--;
+    _mi_stat_decrease(&tld->stats->pages_abandoned, 1);
+    _mi_segment_page_free(page, false, tld);
+    return;
+  }
+
   // don't retire too often..
   // (or we end up retiring and re-allocating most of the time)
   // NOTE: refine this more: we should not retire if this
